@@ -256,6 +256,11 @@ func newRaceReports() []raceReport {
 	}
 	txt := string(b[raceLogOff:])
 	raceLogOff = int64(len(b))
+	return raceReportsFromText(txt)
+}
+
+// raceReportsFromText parses race detector output (log file or a child's stderr).
+func raceReportsFromText(txt string) []raceReport {
 	var out []raceReport
 	for _, blk := range strings.Split(txt, "WARNING: DATA RACE")[1:] {
 		// the first frame of each of the two access stacks that is inside wasp
